@@ -50,7 +50,7 @@ def run(chk):
                     for Mi in A.Ms:
                         hy += [alg.psd(M(Mi)), alg.invok(M(Mi))]
         return hy
-    chk.assume("pow(Kronecker, a) with non-integer a: PSD factors are assumed (principal-branch power laws need arg-sums inside (-pi, pi])")
+    chk.assume("pow(Kronecker, a) with non-integer a: the rule is proved for PSD factors (principal-branch power laws need arg-sums inside (-pi, pi]); that a PD product has PD factors is a separate obligation, which fails: known finding C09-kron-negative-factors")
     dts = [np.float64, np.complex128]
     anns = [(), ("PSD",), ("SelfAdjoint",)]
     specs = {
@@ -59,4 +59,34 @@ def run(chk):
         "sqrt": dict(dtypes=dts, anns=anns), "isqrt": dict(dtypes=dts, anns=anns),
         "pow": dict(dtypes=dts, anns=anns, extra=extra_pow, hyps=hereditary_psd),
     }
-    return run_rules(chk, "C09", ["apply_unary", "exp", "log", "sqrt", "isqrt", "pow"], spec_by_fn=specs)
+    rp = run_rules(chk, "C09", ["apply_unary", "exp", "log", "sqrt", "isqrt", "pow"], spec_by_fn=specs)
+    from props import c11
+    chk.add(c11.kron_hereditary(prop="C09", what="pow", fn="cola.linalg.unary.unary.pow[Kronecker]", engine="KRONPOW"))
+
+    def replayer(ob):
+        if (ob.witness or {}).get("engine") == "KRONPOW":
+            return kron_pow_replay()
+        return rp(ob)
+    return replayer
+
+
+def kron_pow_replay():
+    import json
+    import subprocess
+    code = r'''
+import json, numpy as np, cola
+from cola.ops import Dense, Kronecker
+K = Kronecker(Dense(np.diag([-1., -2.])), Dense(np.diag([-1., -3., -0.5])))
+S = np.asarray(cola.linalg.sqrt(K).to_dense())
+want = np.diag(np.sqrt(np.diag(np.asarray(K.to_dense()))))
+out = dict(replayed=True, failing_input_found=False)
+if not np.allclose(S, want):
+    out = dict(replayed=True, failing_input_found=True, input="sqrt(Kronecker(diag(-1, -2), diag(-1, -3, -0.5))): the product is diag(1, 3, 0.5, 2, 6, 1), positive definite",
+               observed=f"diagonal {np.round(np.real(np.diag(S)), 3).tolist()}", expected=f"the principal root {np.round(np.diag(want), 3).tolist()}")
+print(json.dumps(out))
+'''
+    p = subprocess.run(["/venv/bin/python", "-W", "ignore", "-c", code], cwd="/repo", capture_output=True, text=True, timeout=300)
+    try:
+        return json.loads(p.stdout.strip().splitlines()[-1])
+    except Exception:
+        return dict(replayed=False, failing_input_found=False, error=(p.stdout + p.stderr)[-500:])
